@@ -1,4 +1,5 @@
 """C17 — user-function wrappers preserve behaviour: named/cached/serializable/strings. DESIGN §3 C17."""
+import collections
 import itertools
 import math
 
@@ -190,6 +191,10 @@ def expressions(depth):
     return out
 
 
+class _Row(dict):
+    """A user's record class derived from dict."""
+
+
 class Rec:
     def __init__(self, x, y):
         self.x = x
@@ -238,14 +243,19 @@ def check_expr(expr, order):
                     continue
                 d = x if fv == ["x"] or not fv else y
             want = py_eval(expr, x, y)
-            try:
-                got = ("ok", f(d))
-            except Exception as e:
-                got = ("exc", type(e).__name__)
-            ok = got[0] == want[0] and (got[1] == want[1] if got[0] == "exc" else same_num(got[1], want[1]))
-            if not ok:
-                return [FW.violation(PROP, "expr", "string expression on %s record" % rep, "differs-from-python-eval", args,
-                                     {"rep": rep, "x": x, "y": y, "got": repr(got), "expected": repr(want)})]
+            flavours = [(rep, d)]
+            if rep == "dict":
+                # any mapping that is a dict is a dict record
+                flavours += [("OrderedDict", collections.OrderedDict(d)), ("dict subclass", _Row(d))]
+            for fl, dd in flavours:
+                try:
+                    got = ("ok", f(dd))
+                except Exception as e:
+                    got = ("exc", type(e).__name__)
+                ok = got[0] == want[0] and (got[1] == want[1] if got[0] == "exc" else same_num(got[1], want[1]))
+                if not ok:
+                    return [FW.violation(PROP, "expr", "string expression on %s record" % fl, "differs-from-python-eval", args,
+                                         {"rep": fl, "x": x, "y": y, "got": repr(got), "expected": repr(want)})]
             if rep == "dict":
                 for nm, w_, exp_ in (("named('q', expr)", g, want), ("named(<other expr>, expr)", k, want),
                                      ("plain <other expr> after a wrapper was named like it", plain_other,
